@@ -298,6 +298,15 @@ func iteVal(c *T, a, b Val) Val {
 	if _, ok := b.(VAddr); ok {
 		return b
 	}
+	if ma, ok := a.(VMath); ok {
+		if mb, ok := b.(VMath); ok && ma.T.Sort == mb.T.Sort {
+			return VMath{term.Ite(c, ma.T, mb.T)}
+		}
+		return a
+	}
+	if _, ok := b.(VMath); ok {
+		return a
+	}
 	fa, fb := flatten(a), flatten(b)
 	if len(fa) != len(fb) {
 		return a // differently shaped registers are dead after the join
